@@ -113,6 +113,16 @@ def run(ctx):
                 if ctx.time_left() < 10:
                     break
                 part = uniq[c0:c0 + chunk]
+
+                # a name that is itself a valid upper-case 8.3 name IS the alias of any earlier entry whose generated alias it equals
+                # ('X' after '         x', alias X: one file under two names — FAT semantics, not a defect): such names go first, so
+                # that the aliases generated later avoid them
+                def alias_shaped(n):
+                    try:
+                        return n == n.upper() and EightDotThree.is_8dot3_conform(n, enc)
+                    except Exception:  # noqa
+                        return False
+                part = [n for n in part if alias_shaped(n)] + [n for n in part if not alias_shaped(n)]
                 ops = [["makedir", "/D"]]
                 for j, n in enumerate(part):
                     p = "/D/" + n
